@@ -21,8 +21,7 @@ every call and returns exactly `enc` of the tree — `encList`/`encMsg` of the e
 the final Build (Lemmas/WriterRefine.lean, Lemmas/WriterProgram.lean: mutual induction over trees).
 `written_tree_reads_back` composes the two halves: what the writer builds for a well-formed tree is
 accepted by the parser with exactly its size and delimited exactly by the probe and `OpenValue`.
-Raw copies (Any/Copy/Merge) enter the tree as leaves (`Any`) or through `copyMsg`, which the stream
-covers (no theorem about Copy/Merge).
+Raw copies enter the tree as leaves (`Any`); Copy/Merge (`copyMsg`) is `C16.copy_preserves`.
 -/
 import SpecVerif.Lemmas.ValidParse
 import SpecVerif.Lemmas.WriterTree
